@@ -257,8 +257,13 @@ def check_linker_read(cfg, w, rep, lf):
             h = prog.resolve_op(o.body, o.term.args[0], IDENT, o.blk)
             if h and all(x.kind == "field" and x.info[0] == own and x.info[1] == "fd" for x in h):
                 tgt_ok = True
-        if has_buf and (tgt_ok or filled):
-            rep.ob(cfg, "b-input-slice", key, "`%s` hashes the caller's buffer bounded by what was read from the target" % short(lf.path))
+        from .c01 import fed_slice_exact
+        exact = fed_slice_exact(w, lf, body, blk, t, own) if has_buf and (tgt_ok or filled) else None
+        if exact is True:
+            rep.ob(cfg, "b-input-slice", key, "`%s` hashes exactly the bytes the read from the target just placed in the caller's buffer" % short(lf.path))
+        elif exact is not None:
+            rep.violation("b-slice:%s" % key, "`%s` does not hash exactly the bytes just read from the target (%s)" % (short(lf.path), exact), loc=span_str(t.span),
+                          config=cfg, rule="b-hashes-what-it-reads")
         else:
             rep.violation("b-slice:%s" % key, "`%s` hashes something other than the bytes just read from the target" % short(lf.path), loc=span_str(t.span),
                           config=cfg, rule="b-hashes-what-it-reads")
